@@ -48,6 +48,7 @@ type l1Bess struct {
 	pb.UnimplementedBESSControlServer
 	mu     sync.Mutex
 	log    []l1Cmd
+	nclear int
 	tables map[string]map[string]l1Cmd
 }
 
@@ -142,6 +143,7 @@ func (b *l1Bess) ModuleCommand(ctx context.Context, req *pb.CommandRequest) (*pb
 	switch req.Cmd {
 	case "clear":
 		b.tables[req.Name] = map[string]l1Cmd{}
+		b.nclear++
 	case "add":
 		t[l1Key(c.K)] = c
 	case "delete":
@@ -153,6 +155,12 @@ func (b *l1Bess) ModuleCommand(ctx context.Context, req *pb.CommandRequest) (*pb
 	}
 	b.log = append(b.log, c)
 	return resp, nil
+}
+
+func (b *l1Bess) clears() int {
+	b.mu.Lock()
+	defer b.mu.Unlock()
+	return b.nclear
 }
 
 func (b *l1Bess) takeLog() []l1Cmd {
@@ -319,6 +327,7 @@ func l1NewWorld(cfg l1Cfg) (*l1World, error) {
 	if err := w.boot(); err != nil {
 		return nil, err
 	}
+	w.srv.takeLog() // the start-up clear commands are not part of the first event
 	return w, nil
 }
 
@@ -355,7 +364,18 @@ func (w *l1World) boot() error {
 	b := &bess{}
 	*bessIP = w.addr
 	u.datapath = b
+	// timing only: a loaded machine must not turn a slow RPC into a lost datapath write
+	Timeout = 3 * time.Second
+	before := w.srv.clears()
 	b.SetUpfInfo(u, conf) // connects, clears the four lookup modules
+	// wait until the plug-in reports the datapath as connected (connection set-up is asynchronous)
+	b.conn.Connect()
+	for i := 0; i < 2000 && !u.isConnected(); i++ {
+		time.Sleep(5 * time.Millisecond)
+	}
+	if w.srv.clears()-before < 4 {
+		b.clearState()
+	}
 	w.u, w.b = u, b
 	w.sink = &l1Metrics{}
 	w.conns = map[int]*PFCPConn{}
@@ -676,15 +696,25 @@ func (w *l1World) doEvent(ev l1Event) (obs map[string]interface{}) {
 			select {
 			case <-finished:
 				if pv != nil {
-					frame := ""
+					frame, fn, prev := "", "", ""
 					for _, l := range strings.Split(pst, "\n") {
-						if strings.Contains(l, "/pfcpiface/") && !strings.Contains(l, "verif_") {
+						if strings.Contains(l, "/pfcpiface/") && strings.HasPrefix(l, "\t") && !strings.Contains(l, "verif_") {
 							frame = strings.TrimSpace(l)
+							fn = prev
 							break
 						}
+						prev = l
+					}
+					// function name of the innermost frame inside the repository, without arguments
+					if k := strings.LastIndex(fn, "("); k > 0 {
+						fn = fn[:k]
+					}
+					if k := strings.LastIndex(fn, "."); k >= 0 {
+						fn = fn[k+1:]
 					}
 					obs["panic"] = fmt.Sprint(pv)
 					obs["frame"] = frame
+					obs["func"] = fn
 				}
 			case <-time.After(8 * time.Second):
 				obs["blocked"] = true
@@ -751,6 +781,16 @@ drain2:
 		}
 	}
 	obs["done"] = dn
+	// the node forgets a connection when it receives its address (pConns.Delete): the next
+	// datagram from that peer creates a fresh PFCPConn
+	for _, a := range dn {
+		for i, c := range w.conns {
+			if c.RemoteAddr().String() == a {
+				delete(w.conns, i)
+				delete(w.srcs, i)
+			}
+		}
+	}
 	closed := []int{}
 	for i, nc := range w.ncs {
 		nc.mu.Lock()
